@@ -3,7 +3,7 @@ package engine
 func init() {
 	SetMeta("C01", &Meta{
 		Level: "exploration",
-		Rule: "seeded file sets (1-32 files; sizes around the slice size and 16384 bytes; random, low-entropy, repeated-slice, zero-tail and duplicate content; slice sizes 4..4096; 1..130 recovery blocks; goroutine options 1..64 and default) are protected with the real Create on the simulated disk (mem) or a tmpfs directory (real), hit by 0-4 media faults at rest (delete, bit flips, overwrite, insert/remove bytes, truncate, append, zero-tail changes, swap, copy-over, CRC-forged slice, emptied) and the loss of a subset of recovery files, then Verify and Repair run (double-check on/off, coder workers under a driven schedule in 1/6 of the mem runs). Oracle: when the reference model's premise holds (index and surviving recovery files byte-identical to what Create wrote; slices without a clean occurrence <= distinct surviving recovery blocks) Repair must succeed and every file must equal its original, an error being accepted only if the GF(2^16) determinant of the implied sub-matrix is zero; Repair success always implies restored files. A run is non-trivial when the premise held and Repair had work to do; distinct by (S class, N class, R class, damage kinds, recovery loss, premise, outcome).",
+		Rule:  "seeded file sets (1-32 files; sizes around the slice size and 16384 bytes; random, low-entropy, repeated-slice, zero-tail and duplicate content; slice sizes 4..4096; 1..130 recovery blocks; goroutine options 1..64 and default) are protected with the real Create on the simulated disk (mem) or a tmpfs directory (real), hit by 0-4 media faults at rest (delete, bit flips, overwrite, insert/remove bytes, truncate, append, zero-tail changes, swap, copy-over, CRC-forged slice, emptied) and the loss of a subset of recovery files, then Verify and Repair run (double-check on/off, coder workers under a driven schedule in 1/6 of the mem runs). Oracle: when the reference model's premise holds (index and surviving recovery files byte-identical to what Create wrote; slices without a clean occurrence <= distinct surviving recovery blocks) Repair must succeed and every file must equal its original, an error being accepted only if the GF(2^16) determinant of the implied sub-matrix is zero; Repair success always implies restored files. A run is non-trivial when the premise held and Repair had work to do; distinct by (S class, N class, R class, damage kinds, recovery loss, premise, outcome).",
 		Assumptions: []string{
 			"protected names never look like archive members of the same base, are not prefixes of one another, and damage never removes directories",
 			"recovery files are lost whole in this profile (damaged-but-present recovery files are C13's subject)",
@@ -12,20 +12,20 @@ func init() {
 		ProbesWant: []string{"file>=16KiB", ">256-slices", "non-contiguous-exponents", "relocated-slices-only", "slices-reconstructed", "lower<upper", "forged-crc-slice", "relative-paths"},
 	})
 	SetMeta("C02", &Meta{
-		Level: "exploration",
-		Rule: "the C01/C04 workloads plus hostile recovery files (stale volume with the same recovery-set id from an earlier Create of content differing past 16 KiB, foreign set, flipped/truncated/emptied/garbage volume, flipped index) and beyond-capacity states, with bystander files and sub-directories beside the set, on the simulated disk (every write observed in the access log) and on tmpfs (recursive content snapshots). Oracle: Verify makes no write call and leaves the tree unchanged; Create writes only archive members and leaves inputs unchanged; every write of Repair (successful or not) targets a protected file, carries exactly the protected bytes and is listed in RepairedPaths; every other file in the tree is byte-identical before and after. Non-trivial: Repair had work to do or a hostile recovery file was present; distinct by run class.",
+		Level:       "exploration",
+		Rule:        "the C01/C04 workloads plus hostile recovery files (stale volume with the same recovery-set id from an earlier Create of content differing past 16 KiB, foreign set, flipped/truncated/emptied/garbage volume, flipped index) and beyond-capacity states, with bystander files and sub-directories beside the set, on the simulated disk (every write observed in the access log) and on tmpfs (recursive content snapshots). Oracle: Verify makes no write call and leaves the tree unchanged; Create writes only archive members and leaves inputs unchanged; every write of Repair (successful or not) targets a protected file, carries exactly the protected bytes and is listed in RepairedPaths; every other file in the tree is byte-identical before and after. Non-trivial: Repair had work to do or a hostile recovery file was present; distinct by run class.",
 		Assumptions: []string{"directories are never created or removed by gopar or by the damage actor", "on the real disk writes are inferred from snapshot differences"},
 		ProbesWant:  []string{"stale-volume-same-setid", "file>=16KiB", "relative-paths"},
 	})
 	SetMeta("C03", &Meta{
-		Level: "exploration",
-		Rule: "as C01 but biased to the damage that separates 'all slices findable' from 'all files intact' (insert/prepend/remove bytes, swap, copy-over, lost trailing zeros, appended garbage/zeros, CRC-forged slices); recovery files intact or deleted. Oracle on every Verify result: usable+unusable == N; lower <= usable <= upper where upper = slices whose padded content occurs anywhere in the surviving files and lower = slices with a clean occurrence or in an intact file; usable recovery blocks == distinct intact blocks in the <base>.*.par2 files beside the index (reference reader); RepairPossible <=> unusable <= usable recovery blocks; no-repair-needed implies every file present and byte-identical. Non-trivial: some file was damaged and Verify returned a result; distinct by run class.",
+		Level:       "exploration",
+		Rule:        "as C01 but biased to the damage that separates 'all slices findable' from 'all files intact' (insert/prepend/remove bytes, swap, copy-over, lost trailing zeros, appended garbage/zeros, CRC-forged slices); recovery files intact or deleted. Oracle on every Verify result: usable+unusable == N; lower <= usable <= upper where upper = slices whose padded content occurs anywhere in the surviving files and lower = slices with a clean occurrence or in an intact file; usable recovery blocks == distinct intact blocks in the <base>.*.par2 files beside the index (reference reader); RepairPossible <=> unusable <= usable recovery blocks; no-repair-needed implies every file present and byte-identical. Non-trivial: some file was damaged and Verify returned a result; distinct by run class.",
 		Assumptions: []string{"bystander files never match <base>.*.par2", "for low-entropy content the oracle is the sandwich lower <= usable <= upper (shown as probe lower<upper), never an equality"},
 		ProbesWant:  []string{"lower<upper", "forged-crc-slice", "file>=16KiB", ">256-slices", "relative-paths"},
 	})
 	SetMeta("C04", &Meta{
-		Level: "exploration",
-		Rule: "seeded PAR1 sets (1-32 files of unequal sizes incl. empty next to non-empty and > 16 KiB, Unicode names incl. non-BMP, 1..99 volumes, relative or absolute spellings) created with the real Create (mem and tmpfs), then any subset of data files deleted/corrupted and any subset of volumes deleted; Verify (with and without the full parity check) and Repair. Oracle: counts equal the truth (usable data file <=> present with original bytes; usable volume <=> present and intact); untouched set verifies clean with AllDataOk; unusable <= usable volumes implies Repair restores everything, an error being accepted only if the GF(2^8)/0x11D determinant of the implied sub-matrix (rows: lowest-numbered usable volumes, columns: unusable files) is zero; success implies restored. Non-trivial: some data file was unusable; distinct by run class.",
+		Level:       "exploration",
+		Rule:        "seeded PAR1 sets (1-32 files of unequal sizes incl. empty next to non-empty and > 16 KiB, Unicode names incl. non-BMP, 1..99 volumes, relative or absolute spellings) created with the real Create (mem and tmpfs), then any subset of data files deleted/corrupted and any subset of volumes deleted; Verify (with and without the full parity check) and Repair. Oracle: counts equal the truth (usable data file <=> present with original bytes; usable volume <=> present and intact); untouched set verifies clean with AllDataOk; unusable <= usable volumes implies Repair restores everything, an error being accepted only if the GF(2^8)/0x11D determinant of the implied sub-matrix (rows: lowest-numbered usable volumes, columns: unusable files) is zero; success implies restored. Non-trivial: some data file was unusable; distinct by run class.",
 		Assumptions: []string{"at least one file of a set is non-empty", "the 'unusable parity' count is a gap heuristic by the code's own documentation and is not asserted", "klauspost/reedsolomon picks the first present shards in order (read from its source)"},
 		ProbesWant:  []string{"singular-case", "no-volume-left", "relative-paths", "file>=16KiB"},
 	})
